@@ -127,12 +127,14 @@ func (w *pwWorker) hook(s *server.Server, point string, args ...interface{}) {
 		}
 		if point == "sock.write" && gated {
 			// the moment of the socket write: what is in the file now?
+			// (the file is measured and the event recorded in one step of the trace: a flush of another connection
+			// - background flusher, an ungated connection - may run at any time and records under the same mutex)
 			gid := t38.GoID()
 			var fsize int64
+			w.mu.Lock()
 			if fi, err := os.Stat(w.srv.AOFPath()); err == nil {
 				fsize = fi.Size()
 			}
-			w.mu.Lock()
 			w.log(pwEvent{E: "write", C: ci, Last: w.lastSeq[gid], End: w.lastEnd[gid], Fsize: fsize})
 			w.mu.Unlock()
 		}
